@@ -31,3 +31,33 @@ PROPS["C10"] = dict(
         "a zero-length message whose overhead exactly exhausts the limit may or may not be returned (both readings of 'fits' accepted)",
     ],
 )
+
+PUPPET_ASSUMPTIONS = COMMON_ASSUMPTIONS + [
+    "testing/synctest virtual clock (Go 1.25): time advances only when every goroutine of the bubble is durably blocked",
+    "the harness-side wire mirror (harness/wire) encodes what a real peer would send and decodes what the node emits; it is exercised against the real node in every case",
+    "the node's table is read through the protocol's own push/pull reply (an empty anti-entropy request merges nothing)",
+]
+
+PROPS["C01"] = dict(
+    title="Stale or weaker membership claims never override newer knowledge",
+    pkg="./props/c01",
+    level="exploration",
+    rule=("one real node, scripted peers; rapid draws initial views of three subjects (absent/alive/suspect/dead/left x incarnation 1-3), "
+          "DeadNodeReclaimTime in {0,5s,1h}, GossipToTheDeadTime in {2s,30s}, answering or silent subjects, and 1-14 steps of sleeps "
+          "(1ms-31s, around the suspicion/reclaim/reaping deadlines) and claims (alive/suspect/dead/left and the four push/pull row states; "
+          "incarnation held-1/held/held+1/0/1/2^31/2^32-1; same or different address/port; same/other/empty metadata; version vector "
+          "same/other/short/absent; accuser peer/subject/local/unknown; carrier single/compound/compressed/nested/CRC/push-pull join or not). "
+          "Oracle per claim from dumps before/after: a stale or equal-rank claim leaves record, Members() entry and event log untouched "
+          "(only the node's own timer transitions are allowed) and, on a drained queue, is not re-gossiped; across all consecutive dumps rank never "
+          "decreases and fields change only with a strict rank increase, except the permitted reclaim. "
+          "non-trivial = claim against a present record that is stale or equal-rank and not a permitted reclaim; distinct = distinct tuples "
+          "(prior state, claim kind, relation, carrier, incarnation mode, address/port/meta/vsn variation, accuser, age class, prior address, mode)"),
+    tests=[
+        dict(name="stale", run="^TestStaleClaims$",
+             quick=dict(shards=16, checks=250, timeout=600),
+             thorough=dict(shards=16, checks=6000, timeout=3000)),
+    ],
+    assumptions=PUPPET_ASSUMPTIONS + [
+        "a record first seen already dead (created by an alive at incarnation 0) has unknown age and may be reclaimed at once when a reclaim time is set",
+    ],
+)
